@@ -10,6 +10,8 @@ PROP = dict(
                        "Comdex.C05.matched_receives_positive", "Comdex.C05.matched_receives_positive_single",
                        "Comdex.C05.quote_dust_bounds", "Comdex.C05.quote_dust_bounds_rounds",
                        "Comdex.C05.base_conserved_partial", "Comdex.C05.base_conserved_partial_buys",
+                       "Comdex.C05.base_conserved_partial_single", "Comdex.C05.base_conserved_partial_step",
+                       "Comdex.C05.base_conserved_partial_match",
                        "Comdex.C05.base_conserved_counterexample"],
     harness_tests=["TestC05"],
     trusted_base=[KERNEL_TB, HARNESS_TB, DEC_TB,
@@ -38,9 +40,11 @@ META = dict(
          "DistributeOrderAmountToTick / DistributeOrderAmountToOrders never reach FillOrder's panic, terminate and never divide by zero; "
          "every order stays within offer and amount; every fill is at a price within the order's limit, so buyers pay at most and sellers "
          "receive at least the limit value up to one quote unit per fill; a filled order receives a positive amount; dust of conserved "
-         "rounds is in [0, #fills). Base conservation is proved for the buy side and for lossless distributions, and REFUTED in general by "
-         "a kernel-checked counterexample (defect D2: DistributeOrderAmountToOrders drops the remainder after a re-run).",
+         "rounds is in [0, #fills); the quoteCoinDiff returned by Match / MatchAtSinglePrice is exactly buyers' payments minus sellers' "
+         "receipts. Base conservation is proved for the buy side always and for the whole Match when no sell-side distribution loses a "
+         "remainder (decidable ghost), and REFUTED in general by a kernel-checked counterexample (defect D2: "
+         "DistributeOrderAmountToOrders drops the remainder after a re-run).",
     note="Trusted: Lean kernel, Base/Dec.lean (differentially tested), the hand-written model as far as the correspondence run exercises "
-         "it, distinct order objects, no 315-bit overflow. Engine-level base conservation is monitored on real results, proved only up "
-         "to the distribution function.",
+         "it, distinct order objects, no 315-bit overflow. The dust bound is proved for lists of conserved fills and "
+         "monitored (not proved) for the engine's composed result.",
 )
